@@ -843,7 +843,7 @@ func (e *Engine) convert(fr *frame, from, to types.Type, x Value) Value {
 			return x
 		}
 	}
-	panic(engineErr("conversion %s -> %s is not modelled (%s)", from, to, e.stack(fr)))
+	panic(engineErr("conversion %s -> %s of a %T is not modelled (%s)", from, to, x, e.stack(fr)))
 }
 
 func (e *Engine) implements(dyn types.Type, iface *types.Interface) bool {
